@@ -135,26 +135,43 @@ class C03(Profile):
         self.new_entry_hooks = (oracles.tree_semantics,)
 
     def claim(self, kind, entry, run, v):
-        if kind in ("rows_mismatch", "tree_semantics") and entry is not None:
-            # only attributable to preferred-engine insertion if such a call is in the history
-            if not self._flagged(entry):
+        if kind in ("rows_mismatch", "tree_semantics", "columns_mismatch", "keys_mismatch"):
+            # attributable to preferred-engine insertion only if this very call used it and
+            # the same call without the options does not show the same discrepancy
+            if entry is None or not self._flagged(entry):
+                return None
+            if self._plain_variant_same(run, entry):
                 return None
         return self.claims.get(kind)
 
     @staticmethod
     def _flagged(entry):
-        seen = set()
-        stack = [entry]
-        while stack:
-            e = stack.pop()
-            if id(e) in seen:
-                continue
-            seen.add(id(e))
-            if e.op.get("pe") is not None or (e.op["k"] == "join" and e.parents and
-                                              e.parents[0].mv.engine != e.parents[1].mv.engine):
-                return True
-            stack.extend(e.parents)
-        return False
+        op = entry.op
+        if op.get("pe") is not None and entry.parents and op["pe"] != entry.parents[0].mv.engine:
+            return True
+        return op["k"] == "join" and len(entry.parents) == 2 and entry.parents[0].mv.engine != entry.parents[1].mv.engine
+
+    @staticmethod
+    def _plain_variant_same(run, entry):
+        """Does root application (no preferred-engine options) mean the same as what was built?"""
+        from .interp import InterpError, interp
+
+        op = {k: v for k, v in entry.op.items() if k not in ("pe", "bt", "tr", "rq")}
+        if op["k"] == "join":
+            return False
+        try:
+            plain = run.build_call(op, entry.parents)()
+        except Exception:
+            return False
+
+        def meaning(rel):
+            try:
+                rows = interp(run.w, rel)
+                return [tuple(sorted(r.items())) for r in rows]
+            except (InterpError, KeyError) as e:
+                return ("error", type(e).__name__)
+
+        return meaning(plain) == meaning(entry.rel)
 
     def gen(self, rng, tier):
         return multi_gen(rng, tier, weights=MULTI_W, flags_p=0.6, udf_p=0.04)
@@ -275,7 +292,7 @@ class C07(Profile):
     level = "fault_enumeration"
     claims = {k: "C07" for k in ("rows_mismatch", "mutated", "transfer_payload_on_input", "process_changed_signature",
                                  "process_incomplete", "hook_bad_arg", "hook_on_trivial", "hook_recall", "bad_payload",
-                                 "no_recovery", "exec_exception")}
+                                 "exec_exception")}
     fault_sites = PROC_SITES
     enumerate_faults = True
     track_payloads = True
